@@ -20,7 +20,6 @@ open Spec
 structure UpScope (dbO dbN : DB) : Prop where
   names : ∀ tb ∈ dbO ++ dbN, tb.name ≠ "" ∧ tb.name ≠ Migration.defaultMigrationTable
   nofk : ∀ tb ∈ dbO ++ dbN, tb.fks = []
-  ncm : ∀ tb ∈ dbO ++ dbN, ∀ c ∈ tb.cols, ∀ k ∈ c.opts, k.noComment = true
   both : ∀ tbO ∈ dbO, ∀ tbN ∈ dbN, tbO.name = tbN.name →
     Abs.OrderCompatible tbN.colNames tbO.colNames ∧ (∀ n ∈ tbN.colNames ++ tbO.colNames, n ≠ "") ∧ tbO.pk = tbN.pk ∧
     (∀ dc : List String, (∀ c ∈ dc, c ∉ tbN.colNames) →
@@ -54,7 +53,7 @@ theorem UpScope.of_equiv {dbO dbO' dbN : DB} (hs : UpScope dbO dbN) (he : dbO'.e
     · intro c' hc'
       obtain ⟨c, hc, _, _, hp⟩ := colsEquiv_mem _ _ (colsEquiv_symm _ _ h2) c' hc'
       exact ⟨c, hc, hp.symm⟩
-  refine ⟨?_, ?_, ?_, ?_⟩
+  refine ⟨?_, ?_, ?_⟩
   · intro tb htb
     rcases List.mem_append.mp htb with h | h
     · obtain ⟨u, hu, hn, _⟩ := key tb h
@@ -65,12 +64,6 @@ theorem UpScope.of_equiv {dbO dbO' dbN : DB} (hs : UpScope dbO dbN) (he : dbO'.e
     · obtain ⟨u, hu, _, _, _, _, hfk, _⟩ := key tb h
       exact hfk (hs.nofk u (List.mem_append_left _ hu))
     · exact hs.nofk tb (List.mem_append_right _ h)
-  · intro tb htb c hc k hk
-    rcases List.mem_append.mp htb with h | h
-    · obtain ⟨u, hu, _, _, _, _, _, hcols⟩ := key tb h
-      obtain ⟨c0, hc0, hp⟩ := hcols c hc
-      exact hs.ncm u (List.mem_append_left _ hu) c0 hc0 k (hp.mem_iff.mp hk)
-    · exact hs.ncm tb (List.mem_append_right _ h) c hc k hk
   · intro tbO' htbO' tbN htbN hn
     obtain ⟨u, hu, hnu, hcn, hpk, hidx, _, _⟩ := key tbO' htbO'
     obtain ⟨h1, h2, h3, h4⟩ := hs.both u hu tbN htbN (hnu.symm.trans hn)
@@ -118,7 +111,7 @@ theorem rounds (g : Globals) (hg : g.dialect = .mysql) (hio : g.ignoreOrder = fa
     obtain ⟨hpe, hpp, hpx⟩ := hrev p (by simp)
     have hsc' : UpScope dbH p.2 := hsc.of_equiv heq
     obtain ⟨d, out, hd, hU, ⟨db', he, hequ⟩, _⟩ := schema_spec_up g hg hio false h p.1 dbH p.2 hes hpe hpl hpp hex hpx
-      (fun tb htb => (hsc'.names tb htb).2) hsc'.nofk hsc'.ncm hsc'.both
+      (fun tb htb => (hsc'.names tb htb).2) hsc'.nofk hsc'.both
     have hvoc := schema_up_vocab g hg hio false h p.1 dbH p.2 hes hpe hpl hpp hex hpx
       (fun tb htb => (hsc'.names tb htb).1) hsc'.nofk
       (fun a ha b hb e => by obtain ⟨_, x2, x3, _⟩ := hsc'.both a ha b hb e; exact ⟨x2, x3⟩) d out hd hU
